@@ -33,6 +33,7 @@ RULE = (
     "generated (known finding, probed). non-trivial = at least one chart, a supplied template, an SSC-only key, the "
     "ANIMATIONS alias or a negative value; distinct = distinct canonical JSON of the case"
 )
+RULE += " " + "Added after the seeding rounds: stops of length zero and minus zero ('-0.000', '-0', '= -0.000') are not negative and must be converted."
 ASSUMPTIONS = [
     "SSCSimfile.blank() / SSCChart.blank() are the documented default templates and are read through the public API",
     "TimingData and NoteData are the library's readers named by the property; their own correctness is C07/C14/C15",
